@@ -107,6 +107,44 @@ def file_worker(kp, job):
                 if written != s:
                     v.append(('dump-equals-dumps', f'dump wrote something else than dumps returns (options {o})', {'text': text, 'options': o}))
                 records.append(engine.rec('dump', impl=s, req=docs.model_dumps_req(bad, text, **o), viol=v, kind='dump', key=('dump', text, str(o))))
+        # an option set for which the export raises: dump raises the same error and writes NOTHING - an existing file
+        # keeps its content, a fresh path stays absent (dump writes exactly what dumps returns)
+        if d2 is not None and not exotic:
+            try:
+                M = d2.measures_count()
+            except Exception:
+                M = 0
+            o = rng.choice([{'to_measure': M + rng.randint(1, 4)}, {'from_measure': max(M, 2), 'to_measure': 1}, {'from_measure': -rng.randint(1, 3)}])
+            try:
+                kp.dumps(d2, **o)
+                want = None
+            except Exception as e:
+                want = type(e).__name__
+            if want is not None:
+                v = []
+                try:
+                    good = kp.dumps(d2)
+                    kept = os.path.join(tmp, 'kept.krn')
+                    kp.dump(d2, kept)
+                    fresh = os.path.join(tmp, f'fresh{rng.randint(0, 9)}', 'out.krn')
+                    for target in (kept, fresh):
+                        try:
+                            kp.dump(d2, target, **o)
+                            got = 'ok'
+                        except Exception as e:
+                            got = type(e).__name__
+                        if got != want:
+                            v.append(('dump-equals-dumps', f'options {o}: dumps raises {want}, dump to {"an existing" if target == kept else "a fresh"} path gives {got}', {'text': text, 'options': o}))
+                    with open(kept, encoding='utf-8', newline='') as f:
+                        after = f.read()
+                    if after != good:
+                        v.append(('dump-equals-dumps', f'options {o}: the export raises {want}, yet dump changed the existing file at the path '
+                                                       f'({len(good.encode())} -> {len(after.encode())} bytes)', {'text': text, 'options': o}))
+                    if os.path.exists(fresh):
+                        v.append(('dump-equals-dumps', f'options {o}: the export raises {want}, yet dump created a file at the fresh path', {'text': text, 'options': o}))
+                except Exception as e:
+                    v.append(('dump-equals-dumps', f'dump on the error path: unexpected {type(e).__name__}', {'text': text, 'options': o}))
+                records.append(engine.rec('dump-raises', viol=v[:2], kind='dump-raises:' + want, key=('dump-raises', text, str(o))))
         # a second dump over an existing file: the file must hold the NEW export, also when it has the same length
         if d2 is not None and not exotic:
             import re
@@ -241,7 +279,7 @@ def run(chk):
     ncli = 12 if full else 3
     chk.rule = ('generated documents written to real temporary files with LF / CRLF / CR line ends, with and without final newline, '
                 'non-ASCII lyrics (every 11th with the extra separators of str.splitlines: finding K9): load vs loads (whole tree), '
-                'dump vs dumps for 3 option sets into missing directories; python -m kernpy subprocesses: single-file kern2ekern, '
+                'dump vs dumps for 3 option sets into missing directories; dump with an option set whose export raises (same error, existing file untouched, no file created); python -m kernpy subprocesses: single-file kern2ekern, '
                 'ekern2kern and back, directory mode (both directions, with and without --output_path) with and without -r over a tree with .krn / .kern / other files, the same file names in several directories; '
                 'non-trivial = distinct (text, operation)')
     results = engine.pmap(file_worker, [(chk.seed, i) for i in range(nfile)]) + engine.pmap(cli_worker, [(chk.seed, i) for i in range(ncli)], nproc=min(ncli, 6))
